@@ -357,6 +357,94 @@ def cubic_distance_test(ctx, rng):
     ctx.notes["cubic_distance_test"] = "sampled test, not a proof"
 
 
+def flatten_any(tt, name, steps=24):
+    """flatten_tt that also follows cubic segments (glyf format 1)"""
+    polys = []
+    for kind, start, segs, _ in geom.recorded_to_segments(geom.drawn_segments(tt.getGlyphSet()[name])):
+        cur = tuple(map(float, start))
+        poly = [cur]
+        for sg in segs:
+            if sg[0] == "line":
+                cur = tuple(map(float, sg[1])); poly.append(cur)
+            elif sg[0] == "qcurve":
+                offs = [tuple(map(float, p)) for p in sg[1]]
+                end = tuple(map(float, sg[2]))
+                pts = [(offs[k], ((offs[k][0] + offs[k + 1][0]) / 2, (offs[k][1] + offs[k + 1][1]) / 2)) for k in range(len(offs) - 1)]
+                if offs:
+                    pts.append((offs[-1], end))
+                for q, e in pts:
+                    for k in range(1, steps + 1):
+                        poly.append(quad_pt(cur, q, e, k / steps))
+                    cur = e
+                if not offs:
+                    poly.append(end)
+                cur = end
+            else:
+                c1, c2 = [tuple(map(float, p)) for p in sg[1]]
+                end = tuple(map(float, sg[2]))
+                for k in range(1, steps + 1):
+                    poly.append(cubic_pt(cur, c1, c2, end, k / steps))
+                cur = end
+        polys.append(poly)
+    return polys
+
+
+def poly_distance(pa, pb):
+    """largest distance from a vertex of one polyline set to the other set (both directions)"""
+    worst = 0.0
+    for A, B in ((pa, pb), (pb, pa)):
+        for poly in A:
+            for pt in poly[::10]:
+                worst = max(worst, min(dist_to_polyline(pt, q) for q in B) if B else 1e9)
+    return worst
+
+
+def tt_options_section(ctx, rng):
+    """TrueType options that must not change what is drawn: dropImpliedOnCurves (fewer points, same curve), autoUseMyMetrics
+    (a composite flag), allQuadratic=False (cubics kept as cubics in glyf format 1 instead of being approximated), each against
+    the default build of the same font -- compared as renderings (composites resolved by fontTools' glyph set), and the
+    advances must be identical"""
+    import ufo2ft
+    from fontTools.ttLib import TTFont
+    VARIANTS = [("dropImpliedOnCurves", {"dropImpliedOnCurves": True}, 0.05), ("autoUseMyMetrics off", {"autoUseMyMetrics": False}, 0.0),
+                ("allQuadratic off", {"allQuadratic": False}, 2.95), ("drop + allQuadratic off", {"dropImpliedOnCurves": True, "allQuadratic": False}, 2.95)]
+    # (2.95 = conversion error 1 unit + rounding of either outline (0.71 each) + sampling slack; a sampled test)
+    for i in range(ctx.budget(8, 40)):
+        lib = ["ufoLib2", "defcon"][i % 2]
+        desc = gen_component_font(rng, n=rng.randint(3, 5), kinds=("line", "curve", "qcurve"), classes=["identity", "scale", "mirror_x"], max_depth=2)
+        vname, kw, tol = VARIANTS[i % len(VARIANTS)]
+        case = {"font": jsonable(desc), "lib": lib, "options": kw, "level": "TrueType options vs default"}
+        ctx.count(); ctx.klass("tt option: " + vname); ctx.nontriv(("ttopt", i, ctx.scale))
+        try:
+            out = []
+            for k in ({}, kw):
+                tt = ufo2ft.compileTTF(build_font(desc, lib), useProductionNames=False, **k)
+                buf = io.BytesIO(); tt.save(buf); buf.seek(0); out.append(TTFont(buf))
+        except Exception as e:
+            ctx.spec_failure(case, "compileTTF raised %s: %s\n%s" % (type(e).__name__, e, traceback.format_exc()[-1000:]))
+            continue
+        a, b = out
+        if a.getGlyphOrder() != b.getGlyphOrder():
+            ctx.spec_failure(case, "glyph order differs from the default build")
+            continue
+        for n in a.getGlyphOrder():
+            # (the left side bearing is the box of ALL points, control points included, so it legitimately differs between a
+            # cubic and a quadratic encoding of one curve: advances only)
+            if a["hmtx"][n][0] != b["hmtx"][n][0]:
+                ctx.spec_failure(dict(case, glyph=n), "advance of %r: %r with the option, %r by default" % (n, b["hmtx"][n][0], a["hmtx"][n][0]))
+                break
+            if "allQuadratic" in kw and b["glyf"][n].isComposite():
+                continue          # (a scaled component scales the conversion error with it: simple glyphs only for this variant)
+            pa, pb = flatten_any(a, n, steps=60), flatten_any(b, n, steps=60)
+            if len(pa) != len(pb):
+                ctx.spec_failure(dict(case, glyph=n), "%r has %d contours with the option, %d by default" % (n, len(pb), len(pa)))
+                break
+            d = poly_distance(pa, pb) if pa else 0.0
+            if d > tol + 1e-6:
+                ctx.spec_failure(dict(case, glyph=n, distance=d), "%r is drawn %.3f units away from the default build's outline (allowed %.2f)" % (n, d, tol))
+                break
+
+
 def notdef_section(ctx, rng):
     """a caller-supplied .notdef (the notdefGlyph option; the UFO has none of its own) is an outline like any other: in the
     TrueType font it must come out exactly as the same outline does when compiled as an ordinary glyph of that font
@@ -399,6 +487,7 @@ def notdef_section(ctx, rng):
 
 def explore(ctx):
     notdef_section(ctx, ctx.subrng("notdef"))
+    tt_options_section(ctx, ctx.subrng("tt-options"))
     import ufo2ft
     from fontTools.ttLib import TTFont
     from ufo2ft.preProcessor import TTFPreProcessor
